@@ -46,7 +46,10 @@ def wrapper_safety(rep, cfg):
                         ext = ext_spec.extents(ps, 8 if m.group(3) == 'avx512' else 4)
                     except Exception:
                         ext = None
-                harness.run_routine(mod, name, summ, extents=ext, opts={'atom_ts': lambda r, i: 'bits8'})
+                # every path over the order / equality tests the routine makes on its scalar shape parameters
+                from ..wrapcheck import explore_paths
+                for _p in explore_paths(mod, name, summ, ctx, ps, extents=ext, opts0={'atom_ts': lambda r, i: 'bits8'}, maxpaths=32):
+                    pass
                 rep.ok(tag, 'footprint-in-extent', site_of(mod, name), 'all local-array, register and fixed-size accesses inside their extents; no uninitialised read')
             except Sink as e:
                 if e.kind in MEMKINDS:
